@@ -20,11 +20,6 @@ contract field Explore.explore(log, scrapeInfo, url)
   ensures result1 == nil ==> result0 != nil && result0 == gLastProbe && result0.ScrapedTotal >= toreal(0) && result0.Total >= toreal(0)
   modifies gLastProbe, tkestack.io/kvass/pkg/scrape.StatisticsSeriesResult.* at {}
 
-contract target.Target.URL
-  requires t != nil && cfg != nil
-  ensures result != nil
-  modifies net/url.URL.* at {}
-
 // "Every discovered target is probed once it is first asked for ... at most one probe per target is in flight" (C20):
 // a known target that is not being explored is handed to the workers exactly once and marked; one that is already
 // being explored is not handed over again; an unknown hash yields nothing
